@@ -349,6 +349,25 @@ func (tr *Tracer) gotoBlock(st *state, b *ssa.BasicBlock) (*state, []*state) {
 					tr.restart = true
 				}
 			}
+			// summarise the transition of the loop-carried variables over the generalised iteration
+			backIdx := -1
+			for i, p := range b.Preds {
+				if p == from {
+					backIdx = i
+				}
+			}
+			if backIdx >= 0 && len(st.frames) == 1 {
+				for _, in := range b.Instrs {
+					ph, ok := in.(*ssa.Phi)
+					if !ok {
+						break
+					}
+					if cur, ok := f.regs[ph]; ok {
+						name := ph.Comment
+						st.cut = append(st.cut, PhiStep{Phi: ph, Name: name, Cur: cur, Next: tr.val(st, ph.Edges[backIdx])})
+					}
+				}
+			}
 			tr.finish(st, EndCut, nil)
 			return nil, nil
 		}
